@@ -84,7 +84,8 @@ def main():
             res["demo"] = "no demo_test.go"
         # checker
         kf = json.load(open("/verif/known_findings.json"))
-        known = {(f["property"], f["rule"], f["key"]) for f in kf["findings"]}
+        def is_known(pr, rule, key):
+            return any(f["rule"] == rule and f["property"] in (pr, "*") and (f["key"] == key or (f.get("key_re") and re.match(f["key_re"], key))) for f in kf["findings"])
         ctl = os.path.join(ws, ".empty_control.json")
         open(ctl, "w").write('[{"name":"seed","subs":[],"expect":[]}]')
         caught = {}
@@ -100,7 +101,7 @@ def main():
             if r.get("load_error"):
                 caught[pr] = ["analysis failed: " + r["load_error"][:200]]
                 continue
-            vs = [v["rule"] + ": " + v["key"] for v in r.get("violations", []) if (pr, v["rule"], v["key"]) not in known]
+            vs = [v["rule"] + ": " + v["key"] for v in r.get("violations", []) if not is_known(pr, v["rule"], v["key"])]
             if vs:
                 caught[pr] = sorted(set(vs))
         os.remove(ctl)
